@@ -50,7 +50,7 @@ META = {
         "_PySignalState.update is used through its contract next' == (next & ~mask) | (value & mask) "
         "(body verified in C08)",
     ],
-    "bounds": {"quick": {"W": 3, "shift_amount_bits": 2}, "thorough": {"W": 6, "shift_amount_bits": 3}},
+    "bounds": {"quick": {"W": 3, "shift_amount_bits": 2}, "thorough": {"W": 6, "extra_width": 9, "shift_amount_bits": 3}},
     "explanation": "staged verification of generated simulator code per node template",
 }
 
@@ -84,6 +84,8 @@ def bounds(tier):
 def all_templates(tier):
     W, SA = bounds(tier)
     shapes = T.shapes_upto(W)
+    if tier == "thorough":
+        shapes = shapes + [(9, False), (9, True)]          # one wider pair beyond the dense range
     ts = []
     for op in T.UNOPS:
         for sh in shapes:
